@@ -165,6 +165,9 @@ PROPS = {
                      "Akd.C05.membership_complete", "Akd.C05.membership_complete_leaf", "Akd.C05.nonmembership_complete",
                      "Akd.C08.markers_no_panic", "Akd.C08.past_lt_start", "Akd.C08.future_bounds"],
         "streams": ["l1.dir.c03"],
+        # one case in four also serves histories (Complete, MostRecent 1..3) from pinned read-only instances lagging
+        # 0..3 epochs behind storage; a returned proof that does not verify is a C03 failure as much as a C13 one
+        "also_reports": ["C13"],
         "rule": "histories as in C02; for every label: Complete and MostRecent(n) for n in {1,2,3,total,total+1,1000}: real "
                 "HistoryProof compared with the model's; oracle line spec.history: real key_history_verify result list vs the "
                 "specification's version list (newest first, all or newest n)",
